@@ -137,6 +137,11 @@ def cases(tier, seed):
     # two blocks whose H_0 contain different operator sets (first block: fermion only; second: boson and fermion)
     for pert in ("mixed-ops", "mixed-ops-spin"):
         out.append(dict(kind="matrix", form="two-blocks", pert=pert, order=2, degenerate=True))
+    # two blocks with *identical* lists of unperturbed energies (H_0 = h(N) x 1_2): the coupled levels differ by one quantum
+    # (perturbations with diagonal or two-quantum terms generate number-conserving inter-block couplings at second order,
+    # which are resonant for identical H_0 and correctly refused)
+    for pert in ("jc", "rabi"):
+        out.append(dict(kind="matrix", form="two-blocks", pert=pert, order=3, degenerate=True, same_h0=True))
     # the same matrix-valued forms with a ladder (Floquet) operator instead of the boson
     for form in ("two-blocks", "single-block", "two-blocks-fd"):
         for pert in ("jc", "rabi", "jc+z", "asym2"):
@@ -418,6 +423,24 @@ def run_matrix(case):
                     mask[m, n + k] = True
                     mask[n + k, m] = True
         nkwargs["fully_diagonalize"] = {0: mask}
+    if case.get("same_h0"):
+        # the numeric default solver refuses blocks that share eigenvalues (even if those states are never coupled):
+        # the reference uses a plain energy-denominator solver on the same partition
+        offs_ = [0, n, 2 * n]
+
+        def plain_solver(Y, index):
+            from pymablock.series import zero as _zero
+
+            if Y is _zero:
+                return _zero
+            Yd = np.asarray(Y.toarray() if hasattr(Y, "toarray") else Y, dtype=complex)
+            Ea, Eb = levels[offs_[index[0]]:offs_[index[0] + 1]], levels[offs_[index[1]]:offs_[index[1] + 1]]
+            dE = Ea.reshape(-1, 1) - Eb.reshape(1, -1)
+            out_ = np.zeros_like(Yd)
+            np.divide(Yd, dE, out=out_, where=np.abs(dE) > 1e-9)
+            return out_
+
+        nkwargs["solve_sylvester"] = plain_solver
     outs = block_diagonalize([H0, H1], **kwargs)
     nouts = block_diagonalize([np.diag(levels), h1m], **nkwargs)
     orders = list(range(order + 1))
